@@ -75,7 +75,11 @@ def stepTok (cfg : Cfg) (s : St) (tok : String) : Option (St × String) :=
     match parseNat (tok.drop 1).toString with
     | some d => some ({ s with now := s.now + d }, tok)
     | none => none
-  else if tok == "g" then some (gc cfg s, "g")
+  else if tok == "g" then
+    let gone := (List.range s.nrec).filter fun i =>
+      s.cache (s.recs i).user == some i && decide ((s.recs i).expire + cfg.authTtl ≤ s.now)
+    let names := (gone.map fun i => Bytes.toHex (s.recs i).user).mergeSort (fun a b => decide (a ≤ b))
+    some (gc cfg s, "g[" ++ ",".intercalate names ++ "]")
   else none
 
 def runToks (cfg : Cfg) : St → List String → Option (St × List String)
